@@ -5,6 +5,7 @@ import WellenModel.Model.VcdBody
 import WellenModel.Model.HierDump
 import WellenModel.Model.Slice
 import WellenModel.Model.Fst
+import WellenModel.Model.Load
 /-
 `wmdriver`: reads one request per line on stdin, answers `<model reply>\t<spec reply>` per line.
 Imports only the import-free `Model` modules (the same definitions the theorems are about).
@@ -180,6 +181,42 @@ def handleFstw (tp chs : String) : String × String :=
       | none => "-"
     (m, sp)
   | _, _ => ("bad-request", "-")
+
+/-! ### load / unload sequences (C07) -/
+open Wellen.Load in
+/-- `loadseq <n> <path> <ops>`: the model runs the Waveform map with content id := id (the harness checks
+contents against the signal loaded alone); the spec runs the abstract set -/
+def handleLoadSeq (ns ops : String) : String × String :=
+  match ns.toNat? with
+  | none => ("bad-request", "-")
+  | some n =>
+    let src : Source Nat := { raw := id, aliasOf := fun _ => none, slice := fun s _ _ => s }
+    let parseIds := fun (s : String) => if s = "-" || s = "" then some [] else natList? s
+    let step := fun (acc : Option ((Nat → Option Nat) × (Nat → Bool) × List String × List String)) (o : String) =>
+      acc.bind fun (w, st, mo, so) =>
+        match o.splitOn ":" with
+        | [k, rest] =>
+          (parseIds rest).bind fun ids =>
+            if ids.any (· ≥ n) then none else
+            if k = "d" then
+              let r := (src.loadSignals ids).map fun p => toString p.1
+              let rs := (sortDedup ids).map toString
+              some (w, st, (("d=" ++ (if r.isEmpty then "-" else ",".intercalate r)) :: mo),
+                           (("d=" ++ (if rs.isEmpty then "-" else ",".intercalate rs)) :: so))
+            else
+              let op := if k = "u" then Op.unload ids else Op.load ids
+              -- tabulate: `stepW … i` would otherwise re-run the whole step for every lookup
+              let wa := ((List.range n).map (stepW src w op)).toArray
+              let sa := ((List.range n).map (stepS st op)).toArray
+              let w' : Nat → Option Nat := fun i => wa.getD i none
+              let st' : Nat → Bool := fun i => sa.getD i false
+              let ms := String.ofList ((List.range n).map fun i => match w' i with | some v => if v = i then 'L' else 'X' | none => '-')
+              let ss := String.ofList ((List.range n).map fun i => if st' i then 'L' else '-')
+              some (w', st', ms :: mo, ss :: so)
+        | _ => none
+    match (ops.splitOn ";").foldl step (some (fun _ => none, fun _ => false, [], [])) with
+    | none => ("bad-request", "-")
+    | some (_, _, mo, so) => ("|".intercalate mo.reverse, "|".intercalate so.reverse)
 
 /-! ### whole VCD bodies -/
 open Wellen.Bits Wellen.Store Wellen.Spec Wellen.VcdBody in
@@ -376,6 +413,7 @@ def handleVcd (opts vars rmap body : String) : String × String :=
 
 def handle (line : String) : String × String :=
   match splitSp line with
+  | ["loadseq", n, _, ops] => handleLoadSeq n ops
   | ["fstw", tp, chs] => handleFstw tp chs
   | ["slice", w, ops, msb, lsb] => handleSlice w ops msb lsb
   | ["hier", ops] => Wellen.Hier.handle ops
